@@ -557,7 +557,7 @@ impl<R: BufRead> Dearmor<R> {
     }
 
     fn read_header_internal(b: &mut R, limit: usize) -> Result<(BlockType, Headers, bool)> {
-        let (typ, headers, leading) = read_from_buf(b, "armor header", limit, header_parser)?;
+        let (typ, headers, leading) = read_header_from_buf(b, "armor header", limit)?;
         Ok((typ, headers, leading))
     }
 
@@ -676,6 +676,76 @@ impl<R: BufRead> Read for Dearmor<R> {
     }
 }
 
+/// Incremental search for the end of the armor header section: the first blank line after the
+/// line that starts with the first "-----".
+///
+/// Lets [`read_header_from_buf`] run the header parser when its verdict can change, instead of
+/// over everything accumulated so far after every refill of the source (which is quadratic in
+/// the size of the headers).
+#[derive(Debug, Default)]
+struct HeaderEndFinder {
+    /// Number of octets looked at so far.
+    scanned: usize,
+    /// 0: looking for "-----", 1: inside the armor header line, 2: inside the headers,
+    /// 3: the blank line that ends the headers is complete.
+    stage: u8,
+    dashes: usize,
+    line_is_blank: bool,
+}
+
+impl HeaderEndFinder {
+    /// Looks at the octets of `buf` that have not been looked at yet.
+    /// Returns `true` if the stage changed, i.e. if parsing `buf` is worth an attempt.
+    fn feed(&mut self, buf: &[u8]) -> bool {
+        let stage_before = self.stage;
+        for &b in &buf[self.scanned.min(buf.len())..] {
+            match self.stage {
+                0 => {
+                    if b == b'-' {
+                        self.dashes += 1;
+                        if self.dashes == 5 {
+                            self.stage = 1;
+                        }
+                    } else {
+                        self.dashes = 0;
+                    }
+                }
+                1 => {
+                    if b == b'\n' {
+                        self.stage = 2;
+                        self.line_is_blank = true;
+                    }
+                }
+                2 => match b {
+                    b'\n' => {
+                        if self.line_is_blank {
+                            self.stage = 3;
+                            break;
+                        }
+                        self.line_is_blank = true;
+                    }
+                    b' ' | b'\t' | b'\r' => {}
+                    _ => self.line_is_blank = false,
+                },
+                _ => break,
+            }
+        }
+        self.scanned = buf.len();
+        // once the section looks complete, every attempt is worth it
+        self.stage != stage_before || self.stage == 3
+    }
+}
+
+/// Reads an armor header section (see [`header_parser`]) from `b`.
+pub(crate) fn read_header_from_buf<B: BufRead>(
+    b: &mut B,
+    ctx: &str,
+    limit: usize,
+) -> Result<(BlockType, Headers, bool)> {
+    let mut finder = HeaderEndFinder::default();
+    read_from_buf_gated(b, ctx, limit, header_parser, |buf| finder.feed(buf))
+}
+
 pub(crate) fn read_from_buf<B: BufRead, T, P>(
     b: &mut B,
     ctx: &str,
@@ -684,6 +754,22 @@ pub(crate) fn read_from_buf<B: BufRead, T, P>(
 ) -> Result<T>
 where
     P: Fn(&[u8]) -> IResult<&[u8], T>,
+{
+    read_from_buf_gated(b, ctx, limit, parser, |_| true)
+}
+
+/// Like [`read_from_buf`]. While data is accumulated over several refills of `b`, the parser is
+/// only run on the accumulated data when `worth_parsing` says so (and once the source ends).
+fn read_from_buf_gated<B: BufRead, T, P, G>(
+    b: &mut B,
+    ctx: &str,
+    limit: usize,
+    parser: P,
+    mut worth_parsing: G,
+) -> Result<T>
+where
+    P: Fn(&[u8]) -> IResult<&[u8], T>,
+    G: FnMut(&[u8]) -> bool,
 {
     // Zero copy, single buffer
     let buf = b.fill_buf()?;
@@ -708,6 +794,9 @@ where
     b.consume(len);
 
     let mut last_buffer_len;
+    // the accumulated data as of the first (single buffer) attempt has been parsed
+    worth_parsing(&back_buffer);
+    let mut parsed_all = true;
 
     loop {
         // Safety check to not consume too much
@@ -717,10 +806,25 @@ where
 
         let buf = b.fill_buf()?;
         if buf.is_empty() {
+            if !parsed_all {
+                // the verdict on everything that was read
+                if let Err(err @ (nom::Err::Error(_) | nom::Err::Failure(_))) =
+                    parser(&back_buffer)
+                {
+                    bail!("failed reading: {} {:?}", ctx, err);
+                }
+            }
             bail!("not enough bytes in buffer: {}", ctx);
         }
         last_buffer_len = buf.len();
         back_buffer.extend_from_slice(buf);
+
+        if !worth_parsing(&back_buffer) {
+            parsed_all = false;
+            b.consume(last_buffer_len);
+            continue;
+        }
+        parsed_all = true;
 
         match parser(&back_buffer) {
             Ok((remaining, res)) => {
